@@ -1605,14 +1605,7 @@ func c05ExecutorsRunWhatTheyGet(c *Ctx) {
 			n++
 			used := false
 			if len(fn.Params) > 0 {
-				p := fn.Params[len(fn.Params)-1]
-				if refs := p.Referrers(); refs != nil {
-					for _, r := range *refs {
-						if _, dbg := r.(*ssa.DebugRef); !dbg {
-							used = true
-						}
-					}
-				}
+				used = runsItsArgument(fn.Params[len(fn.Params)-1], 0)
 			}
 			c.Cond(used, ob, key, c.Pos(st), "the literal uses its argument",
 				"the function stored in Engine.Execute at "+c.Pos(st)+" ignores the job it is given: MustExecute (which 'always runs' its job) queues the job, hands the drainer to this executor, and nothing ever runs — the connection's job list stays non-empty, so every later job of the connection is queued behind it for ever (nbhttp replaces the executor like this in its stop hook)")
@@ -1621,4 +1614,89 @@ func c05ExecutorsRunWhatTheyGet(c *Ctx) {
 	if n < 2 {
 		c.Unres(ob, "assignments of Engine.Execute", fmt.Sprintf("found %d, expected >= 2", n))
 	}
+}
+
+// runsItsArgument: the function value v is called, started, or handed on as a
+// function (to a pool's Go, an executor, a closure that does one of these).
+// Printing it or storing it in an interface does not count.
+func runsItsArgument(v ssa.Value, depth int) bool {
+	if depth > 4 {
+		return false
+	}
+	refs := v.Referrers()
+	if refs == nil {
+		return false
+	}
+	isFunc := func(t types.Type) bool { _, ok := t.Underlying().(*types.Signature); return ok }
+	for _, r := range *refs {
+		var common *ssa.CallCommon
+		switch x := r.(type) {
+		case *ssa.Call:
+			common = &x.Call
+		case *ssa.Go:
+			common = &x.Call
+		case *ssa.Defer:
+			common = &x.Call
+		case *ssa.MakeClosure:
+			fn, ok := x.Fn.(*ssa.Function)
+			if !ok {
+				continue
+			}
+			for i, b := range x.Bindings {
+				if b == v && i < len(fn.FreeVars) && runsItsArgument(fn.FreeVars[i], depth+1) {
+					return true
+				}
+			}
+			continue
+		case *ssa.Store:
+			// kept in a local cell: what is loaded from it
+			if al, ok := x.Addr.(*ssa.Alloc); ok && x.Val == v {
+				if arefs := al.Referrers(); arefs != nil {
+					for _, ar := range *arefs {
+						if ld, ok := ar.(*ssa.UnOp); ok && ld.Op == token.MUL && runsItsArgument(ld, depth+1) {
+							return true
+						}
+						if mc, ok := ar.(*ssa.MakeClosure); ok {
+							if fn, ok := mc.Fn.(*ssa.Function); ok {
+								for i, b := range mc.Bindings {
+									if b == ssa.Value(al) && i < len(fn.FreeVars) {
+										// the cell itself is captured: loads of the free variable
+										if frefs := fn.FreeVars[i].Referrers(); frefs != nil {
+											for _, fr := range *frefs {
+												if ld, ok := fr.(*ssa.UnOp); ok && ld.Op == token.MUL && runsItsArgument(ld, depth+1) {
+													return true
+												}
+											}
+										}
+									}
+								}
+							}
+						}
+					}
+				}
+			}
+			continue
+		case *ssa.UnOp:
+			if x.Op == token.MUL && runsItsArgument(x, depth+1) {
+				return true
+			}
+			continue
+		case *ssa.ChangeType:
+			if runsItsArgument(x, depth+1) {
+				return true
+			}
+			continue
+		default:
+			continue
+		}
+		if common.Value == v {
+			return true
+		}
+		for _, a := range common.Args {
+			if a == v && isFunc(a.Type()) {
+				return true
+			}
+		}
+	}
+	return false
 }
